@@ -1,5 +1,5 @@
-(* parsepasses/datarefcheck.go (CheckDataRefs, as repaired by cb3f9df and by the
-   pending C07-loopfunc repair) and template/registry.go (Registry.Add).
+(* parsepasses/datarefcheck.go (CheckDataRefs, as repaired by cb3f9df, 3fac11a and
+   the C14-loopfunc-shape repair) and template/registry.go (Registry.Add).
 
    The Go checker is generic in the node type; it runs here on the view of a
    node defined in Model/RefView.v (kind + Children()).  [chk] is
@@ -100,12 +100,13 @@ Definition check_call (name : bstr) (alldata hasdata : bool) (pkeys : list (opti
       end
   end.
 
-(* the pending repair: a loop function needs the variable of an enclosing loop *)
+(* checkLoopFunc (3fac11a + C14-loopfunc-shape): a loop function takes exactly one argument, the plain variable of an
+   enclosing loop; [arg0] = None stands for every other shape of the argument list (RefView.loop_arg) *)
 Definition check_loop_func (name : bstr) (arg0 : option bstr) (st : cstate) : cres :=
   if contains loop_func_names name then
     match arg0 with
     | Some key => if existsb (fun v => negb (b_let v) && bstr_eqb (b_name v) key) (vars st) then CO st else CR RLoopFunc
-    | None => CO st            (* not a data reference: the renderer fails without looking anything up *)
+    | None => CR RLoopFunc
     end
   else CO st.
 
